@@ -523,4 +523,3 @@ func (c *Ctx) TPL(rule string) []report.Obligation {
 
 var _ = constant.MakeBool
 var _ = report.Info
-
